@@ -81,6 +81,8 @@ Guard(st, e) ==
     [] e.e = "DirEnt" -> GuardDirEnt(st, e)
     [] e.e = "DirIndex" -> GuardDirIndex(st, e)
     [] e.e = "DirEnd" -> st.hdrLeft = 0 /\ st.ndirent = st.expectEnt
+    [] e.e = "IndexLayout" -> /\ e.xattr_exact /\ e.id_exact /\ e.export_exact /\ e.frag_exact     \* every index list ends exactly where the next structure starts
+                              /\ e.xattr_ascending /\ e.id_ascending /\ e.export_ascending /\ e.frag_ascending
     [] e.e = "IdTable" -> e.count = st.sup.ids /\ e.count >= 1
     [] e.e = "ExportTable" -> e.count = st.sup.inodes /\ e.correct = e.count
     [] e.e = "XattrTable" -> st.sup.has_xattr
